@@ -517,15 +517,16 @@ def plan_c14(doc: dict, man: dict, args: dict) -> list:
                     return f
             return None
         cls = ent["cls"]
+        pn = case.get("prop", "p")
         if "values" in case:
             ep = find_enum(pi)
-            if ep:
+            if ep and not case.get("clash"):
                 acts.append({"a": "enum_info", "cls": ep["cls"], "x": {"case": key, "what": "members"}})
             for v in case["values"]:
-                acts.append({"a": "roundtrip", "cls": cls, "value": {"p": v}, "x": {"case": key, "what": "listed"}})
+                acts.append({"a": "roundtrip", "cls": cls, "value": {pn: v}, "x": {"case": key, "what": "listed", "py": pi["python_name"]}})
             for v in unlisted(case["values"]):
-                acts.append({"a": "roundtrip", "cls": cls, "value": {"p": v}, "x": {"case": key, "what": "unlisted"}})
-            acts.append({"a": "roundtrip", "cls": cls, "value": {"p": None}, "x": {"case": key, "what": "null" if case.get("null") else "null_unlisted"}})
+                acts.append({"a": "roundtrip", "cls": cls, "value": {pn: v}, "x": {"case": key, "what": "unlisted"}})
+            acts.append({"a": "roundtrip", "cls": cls, "value": {pn: None}, "x": {"case": key, "what": "null" if case.get("null") else "null_unlisted"}})
         else:
             c = case["const"]
             acts.append({"a": "roundtrip", "cls": cls, "value": {"p": c}, "x": {"case": key, "what": "listed"}})
